@@ -5,7 +5,7 @@ func init() {
 		ID:    "C09",
 		Title: "every stream handed to the library is closed exactly once, never used after",
 		Rules: []*Rule{
-			{ID: "C09.own-param", Floor: 22, Clause: "every Stream/Peekable parameter of stream, parallel, xrand has exactly one discharge form: closed-here on all paths, wrapped into the returned stream, handed to an owning function, or owned by one goroutine that defers Close (wg.Done deferred first) while the returned Close cancels then waits",
+			{ID: "C09.own-param", Floor: 22, Clause: "every Stream/Peekable parameter of stream, parallel, xrand has exactly one discharge form: closed-here on all paths, wrapped into the returned stream, handed to an owning function, or owned by one goroutine that defers Close (wg.Done deferred first; no goroutine of its own that no WaitGroup covers uses the stream) while the returned Close cancels then waits",
 				Run: ruleOwnParams},
 			{ID: "C09.close-forwards", Floor: 13, Clause: "every wrapper type's Close calls Close on each of its stream-typed fields on every path (nil guard allowed); slice fields are closed element-wise",
 				Run: ruleOwnCloseForwards},
